@@ -120,7 +120,7 @@ fn small_scope(max_kf: usize) -> Vec<TlSpec> {
 
 fn random_case<S: Shape>(r: &mut Rng, acc: &mut Acc, index: u64, verbose: bool) {
     let kinds = &S::KINDS[..S::N_ANIM];
-    let spec = gen_tl(r, kinds, &GenOpts::default());
+    let spec = gen_tl(r, kinds, &GenOpts { neg_delay: true, ..GenOpts::default() });
     let subst: Option<Vec<f64>> = if r.chance(1, 2) {
         Some(S::KINDS.iter().map(|k| gen_value(r, *k)).collect())
     } else {
